@@ -369,8 +369,8 @@ def run(rep, ctx):
     rep.rule("R11.10", "spglib is given the analysed structure unmodified with the analyzer's tolerance, and its standardised lattice / positions / types are used without a change of convention (shared with C05)")
     with rep.guard("R11.10"):
         from . import shared as _shb
-        _shb.spglib_boundary(rep, ctx.model, "R11.10")
-    rep.floor("R11.10", 7)
+        _shb.spglib_boundary(rep, ctx.model, "R11.10", back=False)
+    rep.floor("R11.10", 4)
     rep.rule("R11.11", "every tabulated normalizer is an automorphism of its group and an isometry of the lattice (the normalised cell is the same crystal in the same space group; shared with C05/C14)")
     from . import shared as _shn
     _shn.normalizer_tables(rep, ctx.tables, "R11.11", perm=False)
